@@ -581,7 +581,7 @@ class Program:
         if getattr(self, "_normalised", False):
             return
         self._normalised = True
-        from .inline import split_named_expressions, attributes_from_constant_getattr, thread_exit_flags, drop_self_assignments, loops_from_primed, _fold_constant_tests, split_tuple_assignments, comprehensions_from_append_loops, loops_from_leading_breaks, flags_to_breaks, _attr_alias_candidates, expand_attribute_aliases, inline_new_constants, new_constants, alpha_normalise, expand_condition_locals, inline_new_temps, inlined, loops_from_filtered_generators, loops_from_quantifiers, outline_reference_temps, split_conditional_expressions
+        from .inline import split_boolop_assignments, split_named_expressions, attributes_from_constant_getattr, thread_exit_flags, drop_self_assignments, loops_from_primed, _fold_constant_tests, split_tuple_assignments, comprehensions_from_append_loops, loops_from_leading_breaks, flags_to_breaks, _attr_alias_candidates, expand_attribute_aliases, inline_new_constants, new_constants, alpha_normalise, expand_condition_locals, inline_new_temps, inlined, loops_from_filtered_generators, loops_from_quantifiers, outline_reference_temps, split_conditional_expressions
         anchor_names = frozenset(anchor_names)
         self.inline_anchors = anchor_names
 
@@ -626,6 +626,7 @@ class Program:
             nf = comprehensions_from_append_loops(nf, set(tab.get(f.qual, {}).get("keys", {}).values()))
             nf = inline_new_constants(nf, gl, ca)
             nf = split_conditional_expressions(nf)
+            nf = split_boolop_assignments(nf)
             nf = drop_self_assignments(nf)
             nf = loops_from_quantifiers(nf)
             nf = flags_to_breaks(nf)
